@@ -100,14 +100,86 @@ func run(dir string, env []string, name string, args ...string) (string, error) 
 	return out.String(), err
 }
 
+// boundedOut keeps the worker's VSIM lines in full and only the last part of everything else: code under test
+// may print without bound (a mutated RDB can make a loader log every record), and the driver must not grow with it.
+type boundedOut struct {
+	mu      sync.Mutex
+	keep    bytes.Buffer // complete VSIM lines
+	other   []byte       // tail of the rest
+	partial []byte       // current unfinished line
+	dropped int64
+}
+
+const boundedTail = 256 << 10
+
+func (b *boundedOut) Write(p []byte) (int, error) {
+	b.mu.Lock()
+	defer b.mu.Unlock()
+	n := len(p)
+	for len(p) > 0 {
+		i := bytes.IndexByte(p, '\n')
+		if i < 0 {
+			b.addPartial(p)
+			break
+		}
+		b.addPartial(p[:i+1])
+		b.endLine()
+		p = p[i+1:]
+	}
+	return n, nil
+}
+
+func (b *boundedOut) addPartial(p []byte) {
+	// a VSIM line is kept whole whatever its length; any other line is clipped
+	if len(b.partial) < 4 || bytes.HasPrefix(b.partial, []byte("VSIM")) || len(b.partial)+len(p) <= 8192 {
+		b.partial = append(b.partial, p...)
+		return
+	}
+	b.dropped += int64(len(p))
+	if p[len(p)-1] == '\n' {
+		b.partial = append(b.partial, '\n')
+	}
+}
+
+func (b *boundedOut) endLine() {
+	if bytes.HasPrefix(b.partial, []byte("VSIM")) {
+		b.keep.Write(b.partial)
+	} else {
+		b.other = append(b.other, b.partial...)
+		if len(b.other) > 2*boundedTail {
+			b.dropped += int64(len(b.other) - boundedTail)
+			b.other = append([]byte(nil), b.other[len(b.other)-boundedTail:]...)
+		}
+	}
+	b.partial = b.partial[:0]
+}
+
+func (b *boundedOut) flush() {
+	b.mu.Lock()
+	defer b.mu.Unlock()
+	if len(b.partial) > 0 {
+		b.partial = append(b.partial, '\n')
+		b.endLine()
+	}
+}
+
+func (b *boundedOut) Bytes() []byte {
+	b.mu.Lock()
+	defer b.mu.Unlock()
+	r := append([]byte(nil), b.other...)
+	return append(r, b.keep.Bytes()...)
+}
+
+func (b *boundedOut) String() string { return string(b.Bytes()) }
+
 // worker runs the test binary once and parses its VSIM summary line.
 func worker(env []string, timeout time.Duration) (*Summary, string, error) {
 	cmd := exec.Command(filepath.Join(scratch, "worker.test"), "-test.run", "^TestWorker$", "-test.timeout", "0")
 	cmd.Dir = scratch
 	cmd.Env = append(os.Environ(), env...)
-	var out bytes.Buffer
-	cmd.Stdout = &out
-	cmd.Stderr = &out
+	out := &boundedOut{}
+	cmd.Stdout = out
+	cmd.Stderr = out
 	if err := cmd.Start(); err != nil {
 		return nil, "", err
 	}
@@ -121,6 +193,7 @@ func worker(env []string, timeout time.Duration) (*Summary, string, error) {
 		<-done
 		return nil, tail(out.String(), 4000), fmt.Errorf("worker watchdog fired after %v", timeout)
 	}
+	out.flush()
 	sc := bufio.NewScanner(bytes.NewReader(out.Bytes()))
 	sc.Buffer(make([]byte, 1<<20), 1<<30)
 	for sc.Scan() {
